@@ -80,3 +80,25 @@ def import_real(modname):
     if modname in sys.modules:
         return sys.modules[modname]
     return importlib.import_module(modname)
+
+
+def literal_init_fields(module, class_name, method='__init__'):
+    """attributes the current source initialises with a literal in <class>.<method> (`self._cache = None`, `= {}`, `= 0`):
+    hand-built instances (drive the unit) copy those they do not set themselves, so that state introduced by a change
+    to the constructor exists exactly as the constructor would leave it"""
+    tree = ast.parse(read_source(module))
+    out = {}
+    for cls in [n for n in tree.body if isinstance(n, ast.ClassDef) and n.name == class_name]:
+        for fn in [n for n in cls.body if isinstance(n, ast.FunctionDef) and n.name == method]:
+            for node in ast.walk(fn):
+                if isinstance(node, ast.Assign):
+                    try:
+                        val = ast.literal_eval(node.value)
+                    except Exception:
+                        continue
+                    for t in node.targets:
+                        targets = t.elts if isinstance(t, (ast.Tuple, ast.List)) else [t]
+                        for tt in targets:
+                            if isinstance(tt, ast.Attribute) and isinstance(tt.value, ast.Name) and tt.value.id == 'self' and not isinstance(t, (ast.Tuple, ast.List)):
+                                out[tt.attr] = val
+    return out
